@@ -560,6 +560,23 @@ theorem partial_remove (g : Geo) (s : St) (ids : List Nat) (hids : ids ≠ [])
   simp only [this, if_false, Bool.false_eq_true]
   exact (dfToArray_spec g _ i j).2
 
+/-- **Removing the last clusters leaves no charge**, whether or not the array was read while
+they existed; **a removal issued while there is no cluster at all** (the bucket holds only charge
+added as arrays) **changes nothing**. -/
+theorem remove_last_or_none (g : Geo) (s : St) (ids : List Nat) (i j : Nat) :
+    (s.frame ≠ [] → (step g s (.remove ids)).1.frame = [] →
+      (report g (step g s (.remove ids)).1).get i j = 0) ∧
+    (s.frame = [] → (step g s (.remove ids)).1.frame = [] ∧
+      (step g s (.remove ids)).1.arr = s.arr ∧ report g (step g s (.remove ids)).1 = report g s) := by
+  constructor
+  · intro hne hnew
+    have h1 : s.frame.isEmpty = false := by simpa using hne
+    simp only [step] at hnew ⊢
+    simp only [report, readArr, hnew, List.isEmpty_nil, if_true, h1, Bool.not_false, Bool.and_self]
+    exact get_zeros g i j
+  · intro he
+    simp [step, he, report, readArr]
+
 -- non-vacuity of `report_eq_acc`: array, clusters (one outside, one on a pixel border), array
 -- again (converted to clusters), read, on a 2×3 detector with 10 × 5 pixels
 example :
